@@ -108,6 +108,9 @@ fn shapes(n: u32) -> Vec<PT> {
         v.push(ptype(&[], vec![], TypeDef::Sequence(TypeDefSequence { type_param: sym(a) }), &[]));
         v.push(ptype(&[], vec![], TypeDef::Compact(TypeDefCompact { type_param: sym(a) }), &[]));
         v.push(ptype(&["P"], vec![("T", Some(a))], TypeDef::Composite(TypeDefComposite { fields: vec![] }), &[]));
+        // empty strings in every optional / list position: Some("") is not None, [""] is not []
+        v.push(ptype(&[""], vec![("", Some(a))], TypeDef::Composite(TypeDefComposite { fields: vec![pfield(Some(""), a, Some(""), &[""]), pfield(None, a, None, &[])] }), &[""]));
+        v.push(ptype(&["V"], vec![], TypeDef::Variant(TypeDefVariant { variants: vec![Variant { name: "".into(), fields: vec![pfield(Some("x"), a, Some(""), &[])], index: 0, docs: vec!["".into()] }] }), &[]));
         for b in 0..n {
             v.push(ptype(&[], vec![], TypeDef::Array(TypeDefArray { len: 7 + b, type_param: sym(a) }), &[]));
             v.push(ptype(&[], vec![], TypeDef::Tuple(TypeDefTuple { fields: vec![sym(a), sym(b)] }), &[]));
